@@ -130,8 +130,10 @@ class Run:
             a, b = lhs, rhs
         lines = smt.smt_defs([a, b] + list(extra_roots))
         goal = f"(not (= (mod (- {smt.ref(a)} {smt.ref(b)}) {smt.R}) 0))"
-        return self.obligation(name, lines, list(assumptions) + [goal], "unsat",
-                               "identity", meta=meta, replay=replay)
+        o = self.obligation(name, lines, list(assumptions) + [goal], "unsat",
+                            "identity", meta=meta, replay=replay)
+        o.exprs = (a, b)
+        return o
 
     def query(self, name, q, expect="unsat", kind="gadget", **kw):
         """queue an xengine.Query; its factorisation hints become separate
@@ -238,8 +240,30 @@ class Run:
         for o in pending:
             self._judge(o)
 
+    def _hinted_counterexample(self, o):
+        """an identity the solver could not decide: look for a point where the two sides differ
+        (untrusted hint, plain evaluation) and let the solver confirm it on the pinned query"""
+        import random
+        a, b = o.exprs
+        names = smt.variables([a, b])
+        rnd = random.Random(self.seed * 1009 + 3)
+        for _ in range(4):
+            env = {n: rnd.randrange(1, smt.R) for n in names}
+            val = smt.evaluate([a, b], env)
+            if val[a.id] is not None and val[b.id] is not None and val[a.id] != val[b.id]:
+                pins = [f"(= {smt.vname(n)} {v})" for n, v in env.items()]
+                r = smt.check(o.lines, o.asserts + pins, "z3", 60, get_model=True)
+                if r.status == "sat":
+                    return r
+        return None
+
     def _judge(self, o):
         r = o.result
+        if r.status in ("unknown", "timeout") and o.expect == "unsat" and getattr(o, "exprs", None) is not None \
+                and not getattr(o, "optional", False):
+            r2 = self._hinted_counterexample(o)
+            if r2 is not None:
+                o.result = r = r2
         for cs, st in o.cross.items():
             if st in ("sat", "unsat") and st != r.status:
                 self.inconclusive.append(f"{o.name}: solvers disagree (z3={r.status}, {cs}={st})")
